@@ -23,7 +23,7 @@ class FunctionReport:
 
 
 def verify_function(prog, reg, key, mode='int', case=None, pruning=True, max_paths=400):
-    fi = prog.func(key)
+    fi = prog.func(key.split('#')[0])
     c = reg.contracts.get(key)
     if c is None:
         raise KeyError(f'no contract for {key}')
@@ -33,11 +33,12 @@ def verify_function(prog, reg, key, mode='int', case=None, pruning=True, max_pat
     rep.case = case['name'] if case else None
     script = []
     path_id = 0
-    suffix = ('' if mode == 'int' and len(c.modes) == 1 else f'[{mode}]') + (f'[{case["name"]}]' if case else '')
+    suffix = (f'[{c.variant}]' if c.variant else '') + ('' if mode == 'int' and len(c.modes) == 1 else f'[{mode}]') + (f'[{case["name"]}]' if case else '')
     while True:
-        eng = Exec(prog, reg, num_sort=(I if mode == 'int' else REAL), pruning=pruning)
+        eng = Exec(prog, reg, num_sort=(I if mode == 'int' else REAL), pruning=pruning and c.pruning)
         eng.cur = c
         eng.cur_fi = fi
+        eng.view = c.view or c.variant
         eng.path_id = path_id
         eng.script = script
         eng.pos = 0
@@ -94,6 +95,10 @@ def _run_path(eng, fi, c, case, rep, suffix):
     # touch alloc so that it is part of the pre-state
     eng.arr('alloc')
     eng.pre_state = eng.S.copy()
+    if c.ghost_init:
+        from . import hooks as _hooks
+        _hooks.EFFECTS[c.ghost_init](eng, env, None)
+        eng.pre_state = eng.S.copy()
     # ---- requires
     penv = dict(env)
     penv['old'] = VOld(env, eng.pre_state)
@@ -126,6 +131,9 @@ def _run_path(eng, fi, c, case, rep, suffix):
         rep.exits.append(('normal', f'{fi.qualname}/exit:normal{suffix}#p{eng.path_id}', hyps))
         # documented exceptions must have been raised when their condition held
         for exc, rd in c.raises.items():
+            if rd.get('always'):
+                eng.oblige(f'raises-always:{exc}:normal-exit', z3.BoolVal(False), kind='raises',
+                           props=rd.get('props') or c.props)
             if rd.get('when') is not None and rd.get('iff', True):
                 terms = [t for _, t in eng.spec_terms(rd['when'], env2)]
                 eng.oblige(f'raises-iff:{exc}:normal-exit', z3.Not(z3.And(terms)), kind='raises',
